@@ -165,6 +165,7 @@ def correspondence(ctx, model_available=True):
                 res["spec_failures"].append({"what": "disassemble(%d) is not rejected: %r" % (v, r), "case": {"disassemble": v}})
         res["model_vs_impl_agree"] = agree
     res["spec_failures"] += dis_command_oracle(rng, words if quick else rng.sample(words, 3000), outside)
+    res["spec_failures"] += cli_disassemble_oracle(rng, rng.sample(words, min(len(words), 400)) if quick else words)
     res["spec_failures"] = res["spec_failures"][:5]
     res["nontrivial"] = res["distribution"]["words_that_are_instructions"] + len(insts)
     res["rule"] = ("decode: %s; encode: %s valid operand tuples of every real instruction class; plus data / "
@@ -208,6 +209,44 @@ def dis_command_oracle(rng, words, outside):
         elif not shown.startswith("Error"):
             out.append({"what": "debugger `dis %s` prints %r: %d is %s and must be refused" %
                                 (lit, shown, v, "outside 0..0xFFFF" if not 0 <= v <= 0xFFFF else "not an instruction"), "case": {"dis": lit}})
+    return out
+
+
+def cli_disassemble_oracle(rng, words):
+    """`hera disassemble <file of hex words>` prints, line for line, what disassemble(word) gives (or that the word is
+    no instruction): the command line and the decoder agree on every word, the zero word included (seed C05i stripped
+    the characters `0` and `x` from the left of each line, so that 0000 became empty)."""
+    import tempfile
+    from hera.main import main
+    from vmstate import run_real
+    out = []
+    vals = sorted(set(list(words) + [0, 1, 0x10, 0x100, 0x1000, 0xFFFF, 0x00FF, 0x0F0F, 0x2000, 0x3000]))
+    for fmt in ("%04x", "%x", "%04X"):
+        with tempfile.TemporaryDirectory() as d:
+            p = os.path.join(d, "w.hex")
+            open(p, "w").write("".join((fmt % v) + "\n" for v in vals))
+            _, exc, so, se = run_real(lambda: main(["disassemble", p]))
+        if exc:
+            out.append({"what": "hera disassemble on a file of hex words: %s" % exc, "case": {"cli_disassemble": fmt}})
+            continue
+        lines = so.splitlines()
+        if len(lines) != len(vals):
+            out.append({"what": "hera disassemble prints %d lines for %d words (format %s)" % (len(lines), len(vals), fmt),
+                        "case": {"cli_disassemble": fmt}})
+            continue
+        for v, ln in zip(vals, lines):
+            d = real_disassemble(v)
+            if "ok" in d:
+                from hera.op import disassemble
+                want = str(disassemble(v))
+                if ln.strip() != want:
+                    out.append({"what": "hera disassemble prints %r for the line %r; disassemble(%d) is %s" % (ln, fmt % v, v, want),
+                                "case": {"cli_disassemble": fmt % v}})
+                    break
+            elif not ln.startswith("// Unknown instruction"):
+                out.append({"what": "hera disassemble prints %r for the line %r, which is no instruction" % (ln, fmt % v),
+                            "case": {"cli_disassemble": fmt % v}})
+                break
     return out
 
 
